@@ -24,15 +24,21 @@ RULE = ("tables: every composition table with 1 chromosome of length <=7 and 2 c
         "positions on the large ones, each as tuple and (rotating) as UCSC string / bare name / open end / numpy ints, plus malformed "
         "regions (-1, L+1, e<s, unknown name); every region goes through Cooler.extent, a seeded share also through offset, bins().fetch (with an extra bin column), "
         "pixels().fetch (plain / join=True), matrix(balance=False).fetch dense / sparse / as_pixels with 1 and 2 regions, GenomeSegmentation.fetch and bedslice; "
-        "corpus tables alternate dense and very sparse pixel sets (chromosomes without pixels). One evaluation = one API call compared with the model. "
+        "corpus tables alternate dense and very sparse pixel sets (chromosomes without pixels). Region STRINGS in every accepted spelling: plain, thousands "
+        "separators, unit suffixes k/kb/M/Mb/G/Gb in any case with 0-6 decimals (exact decimal spelling computed by the harness), open end, whole chromosome, "
+        "on every bin edge of fixed-width tables (10 x 260, 100 x 120, 1000 x 120) and of variable-width sweep tables whose edges are drawn from all 2-/3-decimal "
+        "mantissas x units (half from the mantissas where binary float scaling is inexact); string regions also go through `cooler dump -r/-r2`. One evaluation = one API call compared with the model. "
         "non-trivial = valid region that is not the whole chromosome, on a chromosome with >=2 bins or a table with >=2 chromosomes; "
         "distinct by (table, region, spelling, api)")
 TRUSTED = ["h5py dataset slicing and pandas iloc are observed through the public fetch API, not modelled separately",
            "indexes/chrom_offset and indexes/bin1_offset are modelled by their contract (bins before chromosome c / pixels with bin1 < k); "
            "their construction is property C02"]
-ASSUMPTIONS = ["int(np.floor(start / binsize)) and int(np.ceil(end / binsize)) equal exact floor/ceil division for coordinates < 2^53 "
-               "(exercised up to 2^31-1, the range of the coordinate dtype)"]
-RESIDUE = ["float division in the fixed-width path is modelled as exact integer division",
+# standard-library axioms behind Coq's classical real numbers (used only by the binary64 division theorem, via Flocq)
+ALLOW_AXIOMS = ("ClassicalDedekindReals.sig_not_dec", "ClassicalDedekindReals.sig_forall_dec",
+                "FunctionalExtensionality.functional_extensionality_dep", "Classical_Prop.classic")
+ASSUMPTIONS = ["numpy float64 true division is the correctly rounded IEEE-754 binary64 quotient (then C04_binary64_fixed_extent_exact PROVES that "
+               "int(np.floor(start / binsize)) and int(np.ceil(end / binsize)) are the exact floor/ceil divisions for operands < 2^53; exercised up to 2^31-1)"]
+RESIDUE = ["float division in the fixed-width path: exactness below 2^53 is a theorem (Flocq); operands >= 2^53 are outside the claim",
            "the 2D query that matrix().fetch performs on the two extents is property C03; here only the bounding box is modelled "
            "(the dense result is still checked against the harness' own symmetric matrix)",
            "region string tokenising is property C19; the model receives the tokenised triple"]
